@@ -512,8 +512,15 @@ def resolve_table(table):
         base = by_id.get(c.get("base"))
         if base is not None:
             attrs = [dict(a) for a in base["rattrs"]]
+        overrides = list(base.get("overrides", [])) if base is not None and c.get("kind") == "plain" else []
         for a in c["attrs"]:
             if a.get("inherited"):
+                if c.get("kind") == "plain":
+                    # a plain subclass shares its parent's metadata; its class attributes only
+                    # shadow the defaults (Attr.lookup_default_value walks the MRO)
+                    if "override" in a:
+                        overrides = [o for o in overrides if o[0] != a["aid"]] + [(a["aid"], default_term(a["override"], heap0))]
+                    continue
                 for r in attrs:
                     if r["aid"] == a["aid"] and "override" in a:
                         r["default_c"] = default_term(a["override"], heap0)
@@ -527,6 +534,8 @@ def resolve_table(table):
                 else [r if x["aid"] == a["aid"] else x for x in attrs]
         rc = dict(c)
         rc["rattrs"] = attrs
+        rc["overrides"] = overrides
+        rc["owner_cls"] = base["owner_cls"] if (base is not None and c.get("kind") == "plain") else c["id"]
         rc["mro"] = [c["id"]] + (base["mro"] if base is not None else [])
         rc["rfrozen"] = bool(c.get("frozen")) or (base is not None and base["rfrozen"])
         rc["rkey"] = c.get("key") if c.get("key") is not None else (base["rkey"] if base is not None else None)
@@ -556,9 +565,11 @@ def c_table(table):
                 fac=copt(a.get("factory"), c_fac), owner=a["owner"], init=cbool(a.get("init", True)),
                 dnc=cbool(a.get("dnc", False)), prep=copt(a.get("prepare"), c_fn),
                 prepi=copt(a.get("prepare_item"), c_fn), inv=clist(a.get("inv_by", []))))
-        cls_terms.append("mkcls {id} {attrs} {frozen} false {key} {mro} {owner} [] {pi} {pc}".format(
+        cls_terms.append("mkcls {id} {attrs} {frozen} false {key} {mro} {owner} {ov} {pi} {pc}".format(
             id=c["id"], attrs=clist(attrs), frozen=cbool(c["rfrozen"]), key=copt(c["rkey"]),
-            mro=clist(c["mro"]), owner=c["id"], pi=copt(c.get("post_init"), c_fn), pc=copt(c.get("post_copy"), c_fn)))
+            mro=clist(c["mro"]), owner=c["owner_cls"],
+            ov=clist(c["overrides"], lambda o: f"({o[0]}, {o[1]})"),
+            pi=copt(c.get("post_init"), c_fn), pc=copt(c.get("post_copy"), c_fn)))
     return clist(cls_terms), clist(heap0, c_obj)
 
 
